@@ -94,6 +94,13 @@ def gen_session(rng, kind):
                 evs.append("idle")
         evs.append("idle")
         return "S|%s|c0=0@%s|%s|-|x" % (",".join(opts), items, " ".join(evs))
+    if kind == "c01" and rng.random() < 0.06:
+        # directed: started with --regex and rotated out of regex mode (and back): the query is then a fuzzy query — `ac` matches
+        # `abc` as a fuzzy term and not as a regular expression
+        items = ",".join(enc("%s-0.%d" % (w, i)) for i, w in enumerate(["abc", "ac", "cab", "ab", "bc", "abc"][:rng.choice([3, 4, 6])]))
+        evs = ["idle", "rot", "idle", "add:97", "add:99", "idle"] + (["rot", "idle"] if rng.random() < 0.5 else []) + \
+              (["bs", "add:98", "idle"] if rng.random() < 0.4 else [])
+        return "S|regex|c0=0@%s|%s|-|x" % (items, " ".join(evs))
     if kind == "c01" and rng.random() < 0.05:
         # directed: a long source in several chunks under a non-empty query with sorting on — later harvests bring more than a hundred
         # results that rank before what is already listed (the list has been read at the end of every iteration)
@@ -299,14 +306,15 @@ def _post(case, impl):
         return None
 
     def snap_tok(l):
-        mm = re.match(r"loop\.end list=(\S*) sel=(\S*) nopt=(\d+) mc=(\w+) clear=(\w+) cur=(\d+) run=(\d+) pool=(\d+)/(\d+) rdone=(\w+) re=(\w+) pv=(\S+) dq=(\w*)\. dcmd=(\w*)\. cq=\"(.*)\" q=\"(.*)\"$", l)
+        mm = re.match(r"loop\.end list=(\S*) sel=(\S*) nopt=(\d+) mc=(\w+) clear=(\w+) cur=(\d+) run=(\d+) pool=(\d+)/(\d+) rdone=(\w+) re=(\w+) pv=(\S+) pvn=(\S+) dq=(\w*)\. dcmd=(\w*)\. cq=\"(.*)\" q=\"(.*)\"$", l)
         lst = [int(x) for x in mm.group(1).split(",") if x]
         sel = mm.group(2) or "_"
         mc = mm.group(4) == "true"
         clear = {"DontClear": "D", "Clear": "C", "ClearIfNotNull": "N"}[mm.group(5)]
         quiet = (mm.group(10) == "true") and (not mc) and mm.group(8) == mm.group(9)
-        info = dict(list=lst, cur=int(mm.group(6)), run=int(mm.group(7)), q=mm.group(16), cq=mm.group(15), re=mm.group(11) == "true", pv=mm.group(12),
-                    dq=bytes.fromhex(mm.group(13)).decode("utf-8", "replace"), dcmd=bytes.fromhex(mm.group(14)).decode("utf-8", "replace"))
+        info = dict(list=lst, cur=int(mm.group(6)), run=int(mm.group(7)), q=mm.group(17), cq=mm.group(16), re=mm.group(11) == "true", pv=mm.group(12),
+                    pvn=mm.group(13), nsel=len([x for x in (mm.group(2) or "").split(",") if x]),
+                    dq=bytes.fromhex(mm.group(14)).decode("utf-8", "replace"), dcmd=bytes.fromhex(mm.group(15)).decode("utf-8", "replace"))
         return "SNAP %s %s %d %s %d" % (",".join(str(x) for x in sorted(lst)) or "_", sel, int(mc), clear, int(quiet)), info
 
     pos = 0
@@ -409,6 +417,7 @@ def _post(case, impl):
                 toks.append("CQ %s" % enc(info["cq"]))     # the command query the Model hands to the previewer ({cq}) vs. the one edited
                 if info["pv"] != "-":
                     toks.append("PV %d %s" % (info["pv"] == "true", snap.rsplit(" ", 1)[1]))
+                    toks.append("PVN %s %d %s" % (info["pvn"], info["nsel"], snap.rsplit(" ", 1)[1]))
             pos = e + 1 if end is not None else e
             continue
         if ev.startswith("EvActAccept") or ev == "EvActAbort":
@@ -495,6 +504,7 @@ def _post(case, impl):
             toks.append("CQ %s" % enc(info["cq"]))     # the command query the Model hands to the previewer ({cq}) vs. the one edited
             if info["pv"] != "-":
                 toks.append("PV %d %s" % (info["pv"] == "true", snap.rsplit(" ", 1)[1]))
+                toks.append("PVN %s %d %s" % (info["pvn"], info["nsel"], snap.rsplit(" ", 1)[1]))
         pos = e + 1 if end is not None else e
     for l in trace[pos:]:
         t = foreign(l)
